@@ -103,10 +103,27 @@ def tools_hash():
         for dp, dn, fn in os.walk(os.path.join(VERIF, sub)):
             dn[:] = [d for d in dn if d not in ("target",)]
             for f in fn:
-                if f.endswith((".rs", ".toml", ".py")):
+                if f.endswith((".rs", ".toml", ".py", ".json")):
                     files.append(os.path.relpath(os.path.join(dp, f), VERIF))
     files.append("tools/factgen/Cargo.toml")
     return _sha_files(VERIF, files)
+
+
+class BuildFailed(RuntimeError):
+    """cargo check (through the factgen wrapper) failed. For a fixture config this is itself a static witness: the
+    corpus, which compiles against the reference tree, no longer compiles against this one."""
+
+    def __init__(self, config, kind, code, stderr):
+        self.config = config
+        self.kind = kind
+        self.first_error = ""
+        lines = stderr.splitlines()
+        for i, l in enumerate(lines):
+            if l.startswith("error"):
+                loc = next((x.strip() for x in lines[i + 1:i + 4] if x.strip().startswith("-->")), "")
+                self.first_error = (l + " " + loc).strip()
+                break
+        RuntimeError.__init__(self, "build failed for config %s (exit %d): %s" % (config, code, self.first_error or "see stderr"))
 
 
 def tree_key():
@@ -209,7 +226,7 @@ def generate(config, key=None, verbose=True):
         r = subprocess.run(cmd, cwd=cwd, env=env, capture_output=True, text=True)
         if r.returncode != 0:
             sys.stderr.write(r.stderr[-6000:])
-            raise RuntimeError("factgen run failed for config %s (exit %d)" % (config, r.returncode))
+            raise BuildFailed(config, cfg["kind"], r.returncode, r.stderr)
         missing = [c for c in cfg["crates"] if not glob.glob(os.path.join(out, c + ".*.json"))]
         if missing:
             raise RuntimeError("factgen produced no facts for %s in config %s" % (missing, config))
